@@ -287,7 +287,9 @@ def number(ctx, terminator=never):
     raise reports.RecoverableError("Local label, not a number")
 
 
-radix50_chars = Parser.regex("[" + re.escape(radix50.TABLE.replace(" ", "")) + "]+", skip_whitespace_before=False)
+# Both cases are listed explicitly (rather than matching case-insensitively) because Unicode case
+# folding would otherwise accept characters such as U+212A KELVIN SIGN, which are not in the table.
+radix50_chars = Parser.regex("[" + re.escape(radix50.TABLE.replace(" ", "") + radix50.TABLE.replace(" ", "").lower()) + "]+", skip_whitespace_before=False, case_sensitive=True)
 
 @Parser
 def radix50_literal(ctx):
